@@ -21,7 +21,7 @@ HAS_DRY = ("backup", "repair_index", "repair_snapshots", "rewrite", "hotcold")
 def run_lines(exe, lines, mode, tag, timeout=3000):
     path = os.path.join(vlib.BUILD, "C15", "in_%s_%d.txt" % (tag, os.getpid()))
     open(path, "w").write("\n".join(lines) + "\n")
-    rc, out, err = vlib.sh2([exe, path, mode], timeout=timeout)
+    rc, out, err = vlib.sh2([exe, path, mode], timeout=timeout, inp="")     # empty stdin: `backup -` reads it
     os.remove(path)
     res = out.splitlines()
     if rc != 0 or len(res) != len(lines):
@@ -62,6 +62,10 @@ def scripted():
     off (control), dry-run on and off, after the damage that gives the repair commands work"""
     S = []
     S.append(("backup", 0, P3 + [AO_ON, op("backup"), op("backup", 0, 0, 1), op("backup", 1), op("backup", 0, 1), AO_OFF, op("backup", 0, 1)]))
+    # every branch of backup (path source without / with parent / forced, stdin command, stdin) as a dry-run
+    S.append(("backup-branches", 0, [op("backup"), op("backup", 0, 1, 0), op("backup", 0, 1, 1), op("backup", 1, 1, 1), op("backup", 0, 1, 2), op("backup", 0, 1, 3),
+              op("backup", 1, 1, 2), op("backup", 0, 0, 2), op("backup", 0, 0, 3), op("backup", 0, 1, 2), op("backup", 0, 1, 3),
+              AO_ON, op("backup", 0, 1, 2), op("backup", 0, 1, 3), op("backup", 0, 0, 2), op("backup", 0, 1, 1)]))
     S.append(("forget", 0, P3 + [AO_ON, op("forget", 0, 0, 0), op("forget", 0, 0, 1), op("forget", 0, 0, 2), AO_OFF, op("forget", 0, 0, 0)]))
     for k in range(7):
         S.append(("prune%d" % k, 0, P3 + [op("forget"), op("dmg_junkpack", 0, 0, k), AO_ON] + [op("prune", 0, 0, v) for v in range(7)]
@@ -180,7 +184,13 @@ def parse_impl_op(s):
             k, n = c.rsplit("*", 1)
             k = k.replace("cold.", "").replace("hot.", "")
             d[k] = d.get(k, 0) + int(n)
-    return name, parse_views(ao), res, int(lost.split("=")[1]), d
+    return name, parse_views(ao), res, int(lost.split(",")[0].split("=")[1]), d
+
+
+def late_writes(s):
+    """storage calls that arrived after the operation had returned"""
+    f = s.strip().split(":", 4)[3]
+    return int(f.split("late=")[1]) if "late=" in f else 0
 
 
 def parse_views(s):
@@ -261,9 +271,9 @@ def run(ctx):
         pr = mp.probe(REPO)
         cov["static_mutation_probe"] = {n: v for n, v in pr}
         cov["static_mutants_detected"] = "%d of %d (plus %d harmless edit(s) accepted)" % (
-            sum(1 for n, v in pr if not n.startswith("harmless") and (v.startswith("BROKEN") or v.startswith("extractor refuses"))),
-            sum(1 for n, v in pr if not n.startswith("harmless")),
-            sum(1 for n, v in pr if n.startswith("harmless") and v.startswith("all obligations")))
+            sum(1 for n, v in pr if "harmless" not in n and (v.startswith("BROKEN") or v.startswith("extractor refuses"))),
+            sum(1 for n, v in pr if "harmless" not in n),
+            sum(1 for n, v in pr if "harmless" in n and v.startswith("all obligations")))
     # ---- 2. entry points on real repositories
     seqs = []
     nseeds = 3 if ctx.thorough() else 1
@@ -286,7 +296,7 @@ def run(ctx):
     il = [impl_line(sd, hc, ops) for (_, sd, hc, ops) in seqs]
     log("C15: %d operation sequences, %d operations" % (len(seqs), sum(len(s[3]) for s in seqs)))
     io = run_lines(impl, il, "seq", "s", timeout=6000)
-    mo = run_lines(model, [model_line(hc, ops, flags) for (_, _, hc, ops) in seqs], "seq", "sm") if model else None
+    mo = run_lines(model, [model_line(hc, ops, flags) for (_, _, hc, ops) in seqs], "seq", "sm") if (model and meta) else None
     nops = 0
     seen_model_cls = {}
     for si, ((lab, sd, hc, ops), out) in enumerate(zip(seqs, io)):
@@ -334,7 +344,10 @@ def run(ctx):
             if res == "panic":
                 viol.append(("operation panics (%s)" % name, wit, sig))
             if o[2] and name in HAS_DRY and (cls or lost):
-                viol.append(("a dry-run of %s wrote to or removed from the repository" % name, wit, sig))
+                lw = late_writes(ps)
+                if lw:
+                    wit = dict(wit, storage_calls_after_the_command_returned=lw)
+                viol.append(("a dry-run of %s wrote to or removed from the repository%s" % (name, " after it returned (detached writer thread)" if lw else ""), wit, sig))
             if any(c.endswith(":over") and c.split(":")[1] in PROTECTED for c in cls) and not stored:
                 # replacing a content-addressed file with other bytes is never intended
                 viol.append(("a stored snapshot/index/pack file was replaced by different bytes (%s)" % name, wit, sig))
@@ -374,9 +387,16 @@ def run(ctx):
         "disagreements_checked": len(mism) + len(viol), "model_impl_mismatches": len(mism), "oracle_violations": len(viol),
         "entry_table": (meta or {}).get("entries"),
     })
+    rerun_cache = {}
+
     def reproduces(line, k, observed):
-        for _ in range(2):
-            o2 = run_lines(impl, [line], "seq", "c")[0].split(" ; ")
+        # each sequence is re-run at most twice, whatever the number of findings on it; at most 40
+        # sequences are re-run (keeps a run with a broken obligation bounded)
+        if line not in rerun_cache:
+            if len(rerun_cache) >= 40:
+                return True
+            rerun_cache[line] = [run_lines(impl, [line], "seq", "c")[0].split(" ; ") for _ in range(2)]
+        for o2 in rerun_cache[line]:
             # same result and same effect classes (counts of packs / index files may differ between runs)
             def shape(x):
                 _, _, res, lost, cls = parse_impl_op(x)
